@@ -78,6 +78,7 @@ type Run struct {
 	Extra       map[string]interface{}
 	Violations  []Violation
 	Parts       []map[string]interface{}
+	known       []KnownFinding
 }
 
 func NewRun(property, tier string) *Run {
@@ -122,10 +123,31 @@ func (r *Run) AddViolation(v Violation) {
 	r.Violations = append(r.Violations, v)
 }
 
+// ViolationCount returns the number of violations found so far that are not listed as open known findings
+// (used to stop a search early once plenty of unlisted violations are known).
 func (r *Run) ViolationCount() int {
 	r.mu.Lock()
 	defer r.mu.Unlock()
-	return len(r.Violations)
+	if r.known == nil {
+		r.known = LoadKnown()
+		if r.known == nil {
+			r.known = []KnownFinding{}
+		}
+	}
+	n := 0
+	for _, v := range r.Violations {
+		listed := false
+		for _, k := range r.known {
+			if k.Status == "open" && k.Property == r.Property && strings.HasPrefix(v.Key, k.Key) {
+				listed = true
+				break
+			}
+		}
+		if !listed {
+			n++
+		}
+	}
+	return n
 }
 
 // AddPart records a sub-result (engine part) in the evidence.
